@@ -27,6 +27,9 @@ func propC11(c *Ctx, r *Report) {
 	r.floor("flag.nest", 2)
 	c.runForHeader(r, "parse.forheader", "wgsl/internal/parser")
 	r.floor("parse.forheader", 8)
+	r.Clauses = append(r.Clauses, epCoverClause)
+	c.runEPFunctionsCovered(r, "epfunctions.covered", inPkgs("ir", "dxil/internal/passes"), nil)
+	r.floor("epfunctions.covered", 4)
 	r.Clauses = append(r.Clauses, "token characters (E20): in the lexer's punctuation scanner the characters consumed on the path to every addToken(K) spell exactly the WGSL token K (a delimiter or semicolon can only be diagnosed as missing if the tokens around it are cut at the right places)")
 	c.runLexerTokenChars(r, "lex.tokenchars")
 	r.floor("lex.tokenchars", 40)
